@@ -1,5 +1,5 @@
 use super::tag::{SyntheticTag, TagInner};
-use super::{utc_timestamp, Annotation, Status, Tag, Timestamp};
+use super::{Annotation, Status, Tag, Timestamp};
 use crate::depmap::DependencyMap;
 use crate::errors::{Error, Result};
 use crate::storage::TaskMap;
@@ -61,6 +61,13 @@ enum Prop {
 }
 
 #[allow(clippy::ptr_arg)]
+/// Interpret a stored number of seconds since the epoch, if it denotes a representable time.
+/// Task data may have been written by other applications or received through sync, so values
+/// outside the supported range are treated like any other unreadable value.
+fn timestamp_from_secs(secs: i64) -> Option<Timestamp> {
+    Utc.timestamp_opt(secs, 0).single()
+}
+
 fn uda_string_to_tuple(key: &str) -> (&str, &str) {
     let mut iter = key.splitn(2, '.');
     let first = iter.next().unwrap();
@@ -206,9 +213,9 @@ impl Task {
     pub fn get_annotations(&self) -> impl Iterator<Item = Annotation> + '_ {
         self.data.iter().filter_map(|(k, v)| {
             if let Some(ts) = k.strip_prefix("annotation_") {
-                if let Ok(ts) = ts.parse::<i64>() {
+                if let Some(entry) = ts.parse::<i64>().ok().and_then(timestamp_from_secs) {
                     return Some(Annotation {
-                        entry: utc_timestamp(ts),
+                        entry,
                         description: v.to_owned(),
                     });
                 }
@@ -551,9 +558,10 @@ impl Task {
     pub fn get_timestamp(&self, property: &str) -> Option<Timestamp> {
         if let Some(ts) = self.data.get(property) {
             if let Ok(ts) = ts.parse() {
-                return Some(utc_timestamp(ts));
+                return timestamp_from_secs(ts);
             }
-            // if the value does not parse as an integer, default to None
+            // if the value does not parse as an integer, or is not a representable time,
+            // default to None
         }
         None
     }
